@@ -2108,3 +2108,95 @@ Example form_nonvacuous :
   /\ form_path ser_as_is TAsgi v = WBody ([97;43;37;50;54;61;37;51;68;37;67;51;37;65;57;37;50;66;38;110;61;53;38;97;43;37;50;54;61] ++ s_True)
   /\ form_path ser_as_is TWsgi (FDict [([97], PStr [33;47;32])]) = WBody [97;61;33;47;43].
 Proof. vm_compute. repeat split; reflexivity. Qed.
+
+(* ------------------------------------------------------------------------------------------------ *)
+(* 16. phases without a validity filter (after seed C06_g)                                           *)
+(* ------------------------------------------------------------------------------------------------ *)
+
+Definition s_id : str := [105;100].
+Definition it_of (p : pyv) : item := [(s_id, VPrim p)].
+
+Lemma matrix_ser name e p : p <> PNone ->
+  serialize3 [def_path_prim name StMatrix e] [(name, VPrim p)] = Some [(name, sval (59 :: name ++ [61] ++ py_str p))].
+Proof.
+  intros Hp. unfold serialize3, ser3, def_path_prim. cbn [flat_map d_name ser3_one d_content d_in d_type d_style d_explode ser3_path map app composed fold_right fst snd].
+  unfold apply_sfun. rewrite d_get_single. cbn [new_value]. destruct p; try congruence; cbn [omap]; rewrite d_set_single; reflexivity.
+Qed.
+
+Lemma matrix_primitive_all_phases name e p : p <> PNone ->
+  let d := def_path_prim name StMatrix e in
+  let it := [(name, VPrim p)] in
+  let s := 59 :: name ++ [61] ++ py_str p in
+  (path_text name (phase_path PhExamples [d] it) = Some s /\ dec_value FMatrixPrim name s = Some (CPrim (py_str p)) /\ is_nil s = false)
+  /\ (forall seg, path_text name (phase_path PhCoverage [d] it) = Some seg -> read_segment (Some FMatrixPrim) name seg = Some (CPrim (py_str p)))
+  /\ (forall seg, path_text name (phase_path PhFuzz [d] it) = Some seg -> read_segment (Some FMatrixPrim) name seg = Some (CPrim (py_str p))).
+Proof.
+  intros Hp d it s.
+  assert (Hdec : dec_value FMatrixPrim name s = Some (CPrim (py_str p))).
+  { unfold s. cbn [dec_value].
+    replace (59 :: name ++ [61] ++ py_str p) with ((59 :: name ++ [61]) ++ py_str p) by (cbn; rewrite <- app_assoc; reflexivity).
+    rewrite strip_prefix_app. reflexivity. }
+  assert (Hread : forall q, quote_value s = Some q -> read_segment (Some FMatrixPrim) name q = Some (CPrim (py_str p))).
+  { intros q Hq. unfold read_segment. rewrite (quote_value_form_roundtrip _ _ Hq). cbn [obind]. exact Hdec. }
+  split; [|split].
+  - unfold phase_path, d, it. rewrite (matrix_ser name e p Hp). unfold path_text. rewrite d_get_single. cbn. auto.
+  - intros seg. unfold phase_path, d, it. rewrite (matrix_ser name e p Hp). cbn [quote_all sval].
+    fold s. destruct (quote_value s) as [q|] eqn:Hq; cbn [omap stringify_item map path_text]; [|discriminate].
+    cbn [path_text stringify_item map fst snd stringify_v sval js_str]. rewrite d_get_single. cbn [obind entry_str py_str].
+    intros [= <-]. apply Hread. reflexivity.
+  - intros seg. unfold phase_path, generated_path, d, it. rewrite (matrix_ser name e p Hp).
+    destruct (is_valid_path _); [|discriminate]. cbn [quote_all sval]. fold s.
+    destruct (quote_value s) as [q|] eqn:Hq; [|discriminate].
+    cbn [path_text jsonify map fst snd jsonify_v jsonify_p sval]. rewrite d_get_single. cbn [obind entry_str py_str].
+    intros [= <-]. apply Hread. reflexivity.
+Qed.
+
+(* label: the truth test makes 0, False and the empty string the empty text; the fuzzing phase drops it (is_valid_path), the
+   examples and coverage phases SEND it: the path variable vanishes from the URL *)
+Lemma label_falsy_reaches_the_wire :
+  let d := def_path_prim s_id StLabel None in
+  (forall p, In p [PInt 0; PBool false; PStr []] ->
+     phase_path PhFuzz [d] (it_of p) = GFiltered
+     /\ phase_path PhExamples [d] (it_of p) = GOk [(s_id, sval [])]
+     /\ phase_path PhCoverage [d] (it_of p) = GOk [(s_id, sval [])])
+  /\ read_segment (Some FLabelPrim) s_id [] = None
+  /\ phase_path PhCoverage [d] (it_of (PInt 7)) = GOk [(s_id, sval [46;55])].
+Proof.
+  split; [|split; reflexivity].
+  intros p [<-|[<-|[<-|[]]]]; vm_compute; repeat split; reflexivity.
+Qed.
+
+(* the seeded rule for matrix primitives *)
+Lemma matrix_truthiness_sentinel_refuted :
+  (forall name v, truthy v = true -> matrix_prim_truthy name v = new_value FMatrixPrim name v)
+  /\ (forall p, In p [PInt 0; PBool false; PStr []] ->
+       matrix_prim_truthy s_id (VPrim p) = Some []
+       /\ new_value FMatrixPrim s_id (VPrim p) = Some (59 :: s_id ++ [61] ++ py_str p))
+  /\ dec_value FMatrixPrim s_id [] = None
+  /\ is_valid_path [(s_id, sval [])] = false
+  /\ omap stringify_item (quote_all [(s_id, sval [])]) = Some [(s_id, sval [])].
+Proof.
+  split; [|split; [|repeat split; reflexivity]].
+  - intros name v H. unfold matrix_prim_truthy. rewrite H. destruct v as [p| |]; try reflexivity.
+    destruct p; try reflexivity. discriminate H.
+  - intros p [<-|[<-|[<-|[]]]]; vm_compute; split; reflexivity.
+Qed.
+
+Example unfiltered_phases_nonvacuous :
+  let d := def_path_prim s_id StMatrix (Some false) in
+  phase_path PhExamples [d] (it_of (PInt 0)) = GOk [(s_id, sval [59;105;100;61;48])]
+  /\ phase_path PhCoverage [d] (it_of (PInt 0)) = GOk [(s_id, sval [37;51;66;105;100;37;51;68;48])]
+  /\ phase_path PhFuzz [d] (it_of (PBool false)) = GOk [(s_id, sval ([37;51;66;105;100;37;51;68] ++ s_False))]
+  /\ phase_path PhCoverage [d] (it_of (PStr [])) = GOk [(s_id, sval [37;51;66;105;100;37;51;68])]
+  /\ read_segment (Some FMatrixPrim) s_id [37;51;66;105;100;37;51;68] = Some (CPrim []).
+Proof. vm_compute. repeat split; reflexivity. Qed.
+
+(* the empty string of an unstyled path parameter: dropped by the fuzzing phase, sent as an empty segment by the other two *)
+Lemma empty_path_value_refuted :
+  forall st, In st [StNone; StSimple] ->
+    let d := def_path_prim s_id st None in
+    phase_path PhFuzz [d] (it_of (PStr [])) = GFiltered
+    /\ path_text s_id (phase_path PhExamples [d] (it_of (PStr []))) = Some []
+    /\ path_text s_id (phase_path PhCoverage [d] (it_of (PStr []))) = Some []
+    /\ path_text s_id (phase_path PhCoverage [d] (it_of (PInt 0))) = Some [48].
+Proof. intros st [<-|[<-|[]]]; vm_compute; repeat split; reflexivity. Qed.
